@@ -1,7 +1,7 @@
 /-
 C02 — DMRS serialisations (SimpleDMRS, DMRX, DMRS-JSON, DMRS-PENMAN): executable model.
 
-Anchors in /repo (state after the `fix:` commits 075a820, 5202cab, 420a408, 19118a7, bcfe60c, b04427e):
+Anchors in /repo (state after the `fix:` commits 075a820, 5202cab, 420a408, 19118a7, bcfe60c, b04427e, 32cdf83):
   delphin/dmrs/_dmrs.py        Node.__init__/sortinfo, Link, DMRS.__init__, _normalize_top_and_links
   delphin/codecs/simpledmrs.py _encode* (format strings), _decode_dmrs/_decode_node/_decode_link/
                                _decode_properties/_decode_lnk over the token stream of _SimpleDMRSLexer
@@ -937,10 +937,18 @@ def typeTruthy : Option Str → Bool
   | some (_ :: _) => true
   | _ => false
 
-/-- the variable of the `i`-th node (1-based): `'q' + str(i)` or `(type or '_') + str(i)`. -/
+/-- `while var in predicates: var += '_'` (fix 32cdf83); the loop ends after at most `len(predicates)` rounds
+(the candidates get longer and longer), the model runs it with that fuel plus one (`freshen_not_mem`). -/
+def freshen (preds : List Str) : Nat → Str → Str
+  | 0, v => v
+  | f + 1, v => if v ∈ preds then freshen preds f (v ++ ['_']) else v
+
+/-- the variable of the `i`-th node (1-based): `'q' + str(i)` or `(type or '_') + str(i)`, then underscores
+appended until it is not the predicate of any node of the graph. -/
 def varName (d : DMRS) (i : Nat) (n : Node) : Str :=
-  if isQuantifier d n.id then 'q' :: natStr i
-  else (match n.type with | some (c :: r) => c :: r | _ => ['_']) ++ natStr i
+  freshen (d.nodes.map (·.pred)) (d.nodes.length + 1)
+    (if isQuantifier d n.id then 'q' :: natStr i
+     else (match n.type with | some (c :: r) => c :: r | _ => ['_']) ++ natStr i)
 
 def enumFrom1 {α} : Nat → List α → List (Nat × α)
   | _, [] => []
